@@ -150,16 +150,16 @@ pub fn drain_consumer(ctx: &Ctx, name: &str, rx: &crossbeam_channel::Receiver<Co
     }
 }
 
-fn conn_close_frame(code: u16, text: &str) -> AMQPFrame {
+pub fn conn_close_frame(code: u16, text: &str) -> AMQPFrame {
     AMQPFrame::Method(0, AMQPClass::Connection(pconnection::AMQPMethod::Close(pconnection::Close { reply_code: code, reply_text: text.into(), class_id: 0, method_id: 0 })))
 }
 
-fn chan_close_frame(ch: u16, code: u16, text: &str) -> AMQPFrame {
+pub fn chan_close_frame(ch: u16, code: u16, text: &str) -> AMQPFrame {
     AMQPFrame::Method(ch, AMQPClass::Channel(pchannel::AMQPMethod::Close(pchannel::Close { reply_code: code, reply_text: text.into(), class_id: 0, method_id: 0 })))
 }
 
 /// Lines of an actor's log that record a call result ("<op> -> Ok|Err(..)").
-fn call_results(log: &[String]) -> Vec<(String, String)> {
+pub fn call_results(log: &[String]) -> Vec<(String, String)> {
     log.iter().filter_map(|l| l.split_once(" -> ").map(|(a, b)| (a.to_string(), b.to_string()))).collect()
 }
 
@@ -583,6 +583,4 @@ impl Scenario for Death {
     }
 }
 
-pub fn all() -> Vec<&'static dyn Scenario> {
-    vec![&Basic, &Close, &Death]
-}
+
